@@ -17,7 +17,10 @@ meta['confirmed_by_framework_author'] = {
     'suite_passes_with_change': bool(m and 'FAILED' not in m.group(2) and 'ok' in m.group(2)),
     'demo_fails_with_change': bool(m and m.group(3) == '1'),
 }
-meta['check_result_first_run'] = lines
+if 'check_result_first_run' in meta and os.path.abspath(src) == os.path.abspath(os.path.join('/verif/seeded', name)):
+    meta['check_result_latest'] = lines  # re-evaluation of a stored seed: the first-run record and its note are kept
+else:
+    meta['check_result_first_run'] = lines
 rc = re.search(r'check %s rc=(\d+)' % prop, out)
 meta['check_exit_code'] = int(rc.group(1)) if rc else None
 if note:
